@@ -83,7 +83,9 @@ def run_shard(shard, ctx):
     for unit in shard['units']:
         cfg = unit['cfg']
         name = gen.cfg_str(cfg)
-        alg = gen.make_algebra(cfg)
+        alg = gen.make_or_skip(ctx, cfg)
+        if alg is None:
+            continue
         iso = Iso(alg)
         ctx.count('algebras')
         for form in FORMS:
